@@ -5,6 +5,7 @@ import (
 	"errors"
 	"fmt"
 	"io"
+	"math"
 	"net"
 	"strconv"
 	"strings"
@@ -112,6 +113,11 @@ func toBytes(f net.Addr, fwdType int) []byte {
 		return nil
 	}
 
+	if len(addrStr) > math.MaxUint16 {
+		// the address length is sent as two bytes
+		logrus.Errorf("PF: address of %d bytes does not fit the control message", len(addrStr))
+		return nil
+	}
 	addrLen := make([]byte, 2)
 	binary.BigEndian.PutUint16(addrLen, uint16(len(addrStr)))
 
@@ -339,6 +345,10 @@ func StartPFClient(forward *Forward, muxer *tubes.Muxer, pfType int) {
 	}
 
 	byteAddr := toBytes(addr, pfType)
+	if byteAddr == nil {
+		logrus.Error("PF: can't encode the forwarding address")
+		return
+	}
 	_, err = pfControlTube.Write(byteAddr)
 	if err != nil {
 		logrus.Errorf("PF: Can't write in the PF control tube. %v", err)
